@@ -8,9 +8,12 @@
    closures, all inputs, all partitions into >= 1 tick); the IR is a subset of HydroNode
    (see checks/C28.json), hence the suffix _modelled_ir.  This file only restates theorems
    proved in Hydro/PTick.v. *)
-From HV Require Import Hydro.Model Hydro.ModelFlows Hydro.PBase Hydro.PTick Hydro.PFlows.
+From HV Require Import Hydro.Model Hydro.ModelFlows Hydro.PBase Hydro.PTick Hydro.PFlows Hydro.PNetwork.
 
-(* two partitions of the same inputs give the same final contents *)
+(* MASTER THEOREM (single statement over the whole modelled top-level IR, proved by induction on
+   the node tree in PTick.run_s_den / run_a_den with one TickInv lemma per operator as the cases;
+   [flow_wf] is the model's kind judgement side conditions): two partitions of the same inputs
+   give the same final contents *)
 Theorem C28_partition_independent_modelled_ir :
   forall (f : flow) (bs1 bs2 : list env), flow_wf f -> bs1 <> [] -> bs2 <> [] ->
     (forall i, flat bs1 i = flat bs2 i) ->
@@ -49,6 +52,18 @@ Theorem C28_generator_tickinv :
     concat (op_run LStatic GInit (run_items (gen_istep init f)) xss) = gen_list f init (concat xss).
 Proof. exact gen_tickinv. Qed.
 Print Assumptions C28_generator_tickinv.
+
+(* HydroNode::Network as an ordered, lossless one-to-one link (arbitrary delay and re-batching):
+   a two-location program is invariant under the sender's tick partition, the link's delivery
+   schedule and the receiver's tick partition *)
+Theorem C28_network_o2o_deterministic : forall (s r : snode) bsA bsA' bsB bsB' port,
+  wf_s s -> wf_s r -> ord s = true -> bsA <> [] -> bsA' <> [] -> bsB <> [] -> bsB' <> [] ->
+  (forall i, flat bsA i = flat bsA' i) ->
+  (forall i, i <> port -> flat bsB i = flat bsB' i) ->
+  fifo_delivered s bsA bsB port -> fifo_delivered s bsA' bsB' port ->
+  equiv (ord r) (concat (run_s r bsB)) (concat (run_s r bsB')).
+Proof. exact network_o2o_deterministic. Qed.
+Print Assumptions C28_network_o2o_deterministic.
 
 (* the executable predicate evaluated on the implementation's outputs is the conclusion *)
 Theorem C28_holds_b_correct :
